@@ -41,6 +41,16 @@ CLAIMED = {
          "Noise must not change rows (ignore), must add >= 1 error: line per malformed region on exactly the chosen stream and in the right slot (stdout/stderr), and must stop the run with exactly the rows of the preceding values (panic). A clean stream yields no report under any policy.",
          "Trusted: the noise-free run as the reference for the rows; error reports are single lines starting with error:.",
          "DESIGN.md §3 C06"),
+ "C11": ("exploration",
+         "metamorphic property-based testing (jawk on a concatenated input vs the concatenation of jawk's outputs on the single values) over generated stateless pipelines with type-directed generated expressions",
+         "For generated pipelines of --set/--split-by/--filter/--select (expressions over the 108 pure functions) in 8 output styles and 4 regex cache sizes, the output for every generated sequence over a pool of values (repetitions, permutations, concatenations are all such sequences) must be header ++ the per-value outputs in order, byte for byte.",
+         "Trusted: the single-value run defines a value's rows; header = output on the empty input.",
+         "DESIGN.md §3 C11"),
+ "C12": ("exploration",
+         "metamorphic property-based testing against AST-level substitution done by the harness (macros inlined at the use site, variables replaced by their literal), plus pipe = map-over-singleton and repeated-select agreement relations",
+         "Per record the bound forms (set/define nested both ways, --set, --set @) must equal the harness-substituted expression; (| a b [c]) must equal b applied to a's value with the input as parent (two independent formulations); k copies of one expression among other selections (after --split-by/--filter) must agree.",
+         "Trusted: the harness' substitution function (60 lines, unit-tested); macros are never recursive; ^^ inside pipe stages not generated (unspecified).",
+         "DESIGN.md §3 C12"),
  "C14": ("exploration",
          "property-based testing with an instrumented endless reader (byte budget oracle, no clock) and a FIFO fed by a counting writer thread",
          "For every generated streaming pipeline in front of --take and every finite prefix followed by an endless stream of qualifying values, jawk must return Ok with exactly the rows of a finite reference run while pulling fewer bytes than a fixed budget past the value that produced the last row. Liveness turned into a bounded safety check.",
